@@ -12,6 +12,10 @@ import tempfile
 
 P = "python/gtirb/"
 MUTANTS = [
+    ("m33-schema-gains-enum-constant", "proto/Module.proto",
+     "  MIPS64 = 9;\n};", "  MIPS64 = 9;\n  RISCV64 = 10;\n};", ["C02", "C01"]),
+    ("m34-python-enum-wrong-name", P + "module.py",
+     'PPC64 = Module_pb2.ISA.Value("PPC64")', 'PPC64 = Module_pb2.ISA.Value("MIPS64")', ["C02"]),
     ("m01-blockset-discard-keeps-uuid", P + "byteinterval.py",
      "            if self._node.ir is not None:\n                v._remove_from_uuid_cache(self._node.ir._local_uuid_cache)\n            return super().discard(v)",
      "            return super().discard(v)", ["C03"]),
